@@ -438,11 +438,41 @@ def replay_density_rows(model):
     return {"reproduced": bad, "rows": rows[:4]}
 
 
-def task_density_rows(ctx):
+def replay_density_rows_trunc1(model):
+    """real sym_eig_trunc1 (the differentiable twin used by the SCF backward): two molecules of the same layout (one heavy atom,
+    three hydrogens) with 4 and 3 occupied orbitals; each density must be 2 C_occ C_occ^T of its own eigenvectors and ITS count."""
+    import torch
+    from seqm.seqm_functions.diag import sym_eig_trunc1
+    from seqm.seqm_functions.pack import pack
+
+    torch.set_default_dtype(torch.float64)
+    g = torch.Generator().manual_seed(9)
+    F = torch.zeros(2, 16, 16)
+    idx = [0, 1, 2, 3, 4, 8, 12]
+    for m in range(2):
+        A = torch.randn(7, 7, generator=g)
+        A = A + A.T
+        for a, ia in enumerate(idx):
+            for b, ib in enumerate(idx):
+                F[m, ia, ib] = A[a, b]
+    nh, nhy, nocc = torch.tensor([1, 1]), torch.tensor([3, 3]), torch.tensor([4, 3])
+    out = sym_eig_trunc1(F, nh, nhy, nocc)
+    P = out[1]
+    worst = 0.0
+    for m in range(2):
+        e, V = torch.linalg.eigh(pack(F[m], nh[m], nhy[m]))
+        want = 2.0 * V[:, : int(nocc[m])] @ V[:, : int(nocc[m])].T
+        got = pack(P[m], nh[m], nhy[m])
+        worst = max(worst, float((got - want).abs().max()))
+    return {"reproduced": worst > 1e-9, "max |P - 2 C_occ C_occ^T with its own occupation|": worst, "occupations": [4, 3]}
+
+
+def _density_rows(ctx, fname):
     """sym_eig_trunc (restricted, batched; LAPACK replaced by arbitrary eigenvectors): the density returned for molecule m is
     unpack(2 C_occ C_occ^T) built from molecule m's own eigenvectors and molecule m's own number of occupied orbitals --
     for batches with equal orbital layout and DIFFERENT electron counts, and with different layouts."""
-    fn = ctx.under_contract("seqm.seqm_functions.diag:sym_eig_trunc", stubs=["degen_symeig / pytorch_symeig (LAPACK, A2): arbitrary eigenvector matrices"])
+    fn = ctx.under_contract("seqm.seqm_functions.diag:" + fname, stubs=["degen_symeig / pytorch_symeig (LAPACK, A2): arbitrary eigenvector matrices"])
+    pre = "" if fname == "sym_eig_trunc" else fname + "."
     cases = {"same-layout-different-nocc": ([1, 1], [1, 1], [4, 3]), "same-layout-same-nocc": ([1, 1], [1, 1], [4, 4]), "different-layouts": ([1, 0], [1, 2], [4, 1]),
              "three-molecules": ([1, 1, 1], [1, 1, 1], [3, 4, 2])}
     for tag, (nh, nhy, nocc) in cases.items():
@@ -452,37 +482,54 @@ def task_density_rows(ctx):
         size = max(norb)
         V = st.symbolic((nmol, size, size), "V")
 
+        calls = [0]
+
         class EighStub:
             @staticmethod
             def apply(x0):
+                if x0.a.ndim == 2:
+                    # one matrix per call (sym_eig_trunc1 maps over the molecules): the m-th call is molecule m
+                    m_ = calls[0] % nmol
+                    calls[0] += 1
+                    k_ = x0.a.shape[-1]
+                    return st.symbolic((k_,), "eval%d" % m_), st.T(V.a[m_, :k_, :k_].copy(), st.float64, True)
                 return st.symbolic((x0.shape[0], x0.shape[-1]), "eval"), V
 
         def eigh_fn(x0):
             return EighStub.apply(x0)
 
         def thunk():
+            calls[0] = 0
             F = st.symbolic((nmol, 4 * molsize, 4 * molsize), "F")
             return fn(F, st.tensor(nh), st.tensor(nhy), st.tensor(nocc))
 
-        ex = ctx.explore(thunk, stubs={"seqm.seqm_functions.diag:degen_symeig": EighStub, "seqm.seqm_functions.diag:pytorch_symeig": eigh_fn}, name="sym_eig_trunc[%s]" % tag)
+        ex = ctx.explore(thunk, stubs={"seqm.seqm_functions.diag:degen_symeig": EighStub, "seqm.seqm_functions.diag:pytorch_symeig": eigh_fn}, name="%s[%s]" % (fname, tag))
         for p in ex.paths:
             if p.raised is not None:
-                ctx.fail("%s.raises@p%d" % (tag, p.path_id), repr(p.raised) + p.notes.get("traceback", "")[-600:])
+                ctx.fail("%s.%s.raises@p%d" % (fname, tag, p.path_id), repr(p.raised) + p.notes.get("traceback", "")[-600:])
                 continue
-            e, Pm, v = p.value
+            e, Pm = p.value[0], p.value[1]
             for m in range(nmol):
                 # physical orbital slots of molecule m in the unpacked 4*molsize layout
                 slots = [4 * a + k for a in range(nh[m]) for k in range(4)] + [4 * (nh[m] + b) for b in range(nhy[m])]
                 for i_, si in enumerate(slots):
                     for j_, sj in enumerate(slots):
                         want = 2 * sum(V.a[m, i_, k] * V.a[m, j_, k] for k in range(nocc[m]))
-                        ctx.prove_eq("%s.P[mol%d][%d,%d]=2 sum over its own %d occupied orbitals@p%d" % (tag, m, si, sj, nocc[m], p.path_id), Pm.a[m, si, sj], want, pc=p.pc,
-                                     replay=replay_density_rows, classify=lambda m_, r: "occupation-of-another-molecule")
+                        ctx.prove_eq("%s%s.P[mol%d][%d,%d]=2 sum over its own %d occupied orbitals@p%d" % (pre, tag, m, si, sj, nocc[m], p.path_id), Pm.a[m, si, sj], want, pc=p.pc,
+                                     replay=(replay_density_rows if fname == "sym_eig_trunc" else replay_density_rows_trunc1), classify=lambda m_, r: "occupation-of-another-molecule")
                 others = [q for q in range(4 * molsize) if q not in slots]
                 if others:
-                    ctx.prove("%s.P[mol%d]-vanishes-on-padding-slots@p%d" % (tag, m, p.path_id),
+                    ctx.prove("%s%s.P[mol%d]-vanishes-on-padding-slots@p%d" % (pre, tag, m, p.path_id),
                               E.and_(*[E.eq(E.node_of(Pm.a[m, q, r_]), E.const(0)) for q in others for r_ in range(4 * molsize)]), pc=p.pc)
     ctx.assume_note("A2: the eigen-solver returns some eigenvector matrix per molecule (columns ascending in energy); CHECK_DEGENERACY off (module default)")
+
+
+def task_density_rows(ctx):
+    """sym_eig_trunc and its differentiable twin sym_eig_trunc1 (restricted, batched; LAPACK replaced by arbitrary eigenvectors): the
+    density returned for molecule m is unpack(2 C_occ C_occ^T) built from molecule m's own eigenvectors and molecule m's own number
+    of occupied orbitals -- for batches with equal orbital layout and DIFFERENT electron counts, and with different layouts."""
+    _density_rows(ctx, "sym_eig_trunc")
+    _density_rows(ctx, "sym_eig_trunc1")
 
 
 TASKS_QUICK = ["density_rows", "fermi_rows", "response_rows", "dipole_rows", "parser_rows", "fock_rows", "pack_unpack", "coupled_ops"]
